@@ -292,6 +292,8 @@ def c16_oracle(G, uri, work):
     sig = None
     if impl[0] == "other-error":
         if impl[1] == "KeyError" and "DataType" in impl[2] and not has_col: causes.add("no-datatype-column")
+        if impl[1] == "AttributeError" and "xml_encode" in impl[2] and any(isinstance(v, T.UAListOf) and any(e is None for e in v.value) for v in written["Value"] if not parsecmp.isna(v)):
+            causes.add("list-with-undecodable-element")
         sig = ("C16/other-error", "%r" % (impl,))
     elif impl[0] == "rejected-no-datatype":
         if not any(parsecmp.isna(r["DataType"]) and not parsecmp.isna(r["Value"]) and r["NodeClass"] == "UAVariable" for _, r in written.iterrows()): sig = ("C16/no-datatype-error-without-cause", "")
@@ -312,6 +314,14 @@ def c16_replay(case):
              "nodeid": ([(T.UANodeId(1, "i", "5"), "NodeId")], 1),
              "structure": ([(T.UAEURange(0.0, 1.0), "Double")], 1),
              "no-column": ([(T.UAInt32(1), None)], 1)}
+    if case.get("kind") == "docset":
+        try:
+            paths = write_files(work, [tuple(f) for f in case["files"]])
+            st, G = build(paths)
+            if G is None: return [("C16/other-error", "graph could not be built: %r" % (st,))]
+            return c16_oracle(G, case["uri"], work)[4]
+        finally:
+            shutil.rmtree(work, ignore_errors=True)
     spec, ncustom = specs[case["which"]]
     try:
         g = nsgen.gen_graph(rng, n_ns=1, n_nodes=0, hostile=False, with_values=False, dangling=False)
@@ -331,9 +341,20 @@ def run_c16(ctx):
     reqs = []; meta = []
     simple = set(nsgen.BUILTIN_IDS)
     try:
-        for ci in range(35 if ctx.quick() else 600):
+        # a sweep of the grid first: every built-in type as the declared DataType of a lone variable holding a scalar of another built-in type
+        # (must be rejected, naming it), and every scalar value class declared as its own type (must be written); then random graphs
+        sweep = []
+        for d in nsgen.BUILTIN_IDS:
+            sweep.append([(T.UAString("x") if d == "Int32" else T.UAInt32(1), d)])
+        own = [T.UABoolean(True), T.UASByte(1), T.UAByte(1), T.UAInt16(1), T.UAUInt16(1), T.UAInt32(1), T.UAUInt32(1), T.UAInt64(1), T.UAUInt64(1), T.UAFloat(1.5), T.UADouble(1.5),
+               T.UAString("x"), T.UAGuid("00000000-0000-0000-0000-000000000001"), T.UAByteString(b"ab"), T.UALocalizedText("t", "en")]
+        for v in own: sweep.append([(v, type(v).__name__[2:])])
+        for v in own[:6]: sweep.append([(v, type(v).__name__[2:]), (T.UAInt32(2) if not isinstance(v, T.UAInt32) else T.UAByte(2), "XmlElement" if len(sweep) % 2 else "Guid")])
+        n_rand = 35 if ctx.quick() else 600
+        for ci in range(len(sweep) + n_rand):
             g = nsgen.gen_graph(rng, n_ns=1, n_nodes=rng.randint(0, 2), hostile=False, with_values=False, dangling=False)
-            vars_ = nsgen.add_typed_variables(g, rng, make_value=c16_value)
+            if ci < len(sweep): vars_ = nsgen.add_typed_variables(g, rng, spec=sweep[ci], n_custom=1)
+            else: vars_ = nsgen.add_typed_variables(g, rng, make_value=c16_value)
             ds = nsgen.serialise(g, rng, value_xml=parseprops.value_xml, aliases=rng.random() < 0.5)
             files = [(n, docs.render(d, rng)) for n, d, _ in ds]
             paths = write_files(work, files)
